@@ -28,7 +28,7 @@ type cReader struct {
 }
 
 func (r *cReader) Read(p []byte) (int, error) { return r.c.Read(p) }
-func (r *cReader) Close() error                { r.closes.hit(); return r.c.Close() }
+func (r *cReader) Close() error               { r.closes.hit(); return r.c.Close() }
 
 // gWriter is the write half: Write call number blockAt (1-based) of the whole life of the
 // writer parks until the gate opens or the writer is closed (as a socket write would).
